@@ -234,6 +234,27 @@ def rule_r2_r3(ck, prog, spec):
     ck.analysed(parse, proc, find)
 
 
+def stored_before_handler(prog):
+    """paths stored on every path from the start of a unit iteration in SCPI_Parse to the call-back
+    invocation in processCommand (None when an anchor is missing)"""
+    parse, proc, find = prog.fn("SCPI_Parse"), prog.fn("processCommand"), prog.fn("findCommandHeader")
+    if not (parse and proc and find):
+        return None
+    summ = {"findCommandHeader": X.return_stores(find)}
+    pgp, stp = X.must_stored(parse, reset_calls=("scpiParser_detectProgramMessageUnit",), callee_summaries=summ)
+    pcs = list(parse.calls("processCommand"))
+    cbs = [c for c in proc.calls() if c.get("callee") is None and "callback" in (c.get("callee_path") or "")]
+    if not pcs or not cbs:
+        return None
+    pgc, stc = X.must_stored(proc)
+    out = None
+    for pc in pcs:
+        for cb in cbs:
+            cur = set(stp.get(pgp.before(pc), frozenset())) | set(stc.get(pgc.before(cb), frozenset()))
+            out = cur if out is None else (out & cur)
+    return out
+
+
 def rule_r4(ck, prog):
     got = K.need(ck, prog, "C09-R4", "scpiParser_detectProgramMessageUnit")
     if not got:
